@@ -27,7 +27,8 @@ ASSUMPTIONS = [
     "test folds hold at least 2 points with non-constant data (R2 is undefined otherwise)",
 ]
 SCORERS = [None, "r2", "neg_mean_squared_error", "neg_root_mean_squared_error", "neg_mean_absolute_error"]
-ESTIMATORS = ["trend", "spline", "knn", "vector", "chain"]
+ESTIMATORS = ["trend", "spline", "knn", "vector", "chain", "vector3"]
+NCOMP = {"vector": 2, "vector3": 3}
 
 
 class FixedSplits:
@@ -69,6 +70,9 @@ def est_spec(name, draw, scale):
         return dict(kind="knn", k=draw(st.integers(1, 3)))
     if name == "vector":
         return dict(kind="vector", components=[dict(kind="trend", degree=draw(st.integers(0, 2))), dict(kind="spline", damping=draw(st.sampled_from([1e-2, 1.0])))])
+    if name == "vector3":
+        # three components with clearly different scores: their mean, median and first differ
+        return dict(kind="vector", components=[dict(kind="trend", degree=draw(st.integers(0, 2))), dict(kind="knn", k=draw(st.integers(1, 3))), dict(kind="spline", damping=draw(st.sampled_from([1e-2, 1.0])))])
     return dict(kind="chain", steps=[dict(kind="trend", degree=1), dict(kind="spline", damping=draw(st.sampled_from([1e-2, 1.0])))])
 
 
@@ -99,7 +103,7 @@ def build_data(ds):
 @st.composite
 def cv_cases(draw):
     name = draw(st.sampled_from(ESTIMATORS))
-    ds = draw(datasets(force_comp=2 if name == "vector" else 1))
+    ds = draw(datasets(force_comp=NCOMP.get(name, 1)))
     n = len(ds["cloud"]["cells"])
     spec = est_spec(name, draw, ds["cloud"]["scale"])
     cvkind = draw(st.sampled_from(["fixed", "fixed", "kfold", "shuffle", "blockkfold", "blockshuffle", "default"]))
@@ -229,8 +233,8 @@ def check_cv(case, ctx):
 @st.composite
 def score_cases(draw):
     name = draw(st.sampled_from(ESTIMATORS))
-    ds = draw(datasets(force_comp=2 if name == "vector" else 1, min_n=8))
-    return dict(dataset=ds, estimator=est_spec(name, draw, ds["cloud"]["scale"]), other=draw(datasets(force_comp=2 if name == "vector" else 1, min_n=6, max_n=20)))
+    ds = draw(datasets(force_comp=NCOMP.get(name, 1), min_n=8))
+    return dict(dataset=ds, estimator=est_spec(name, draw, ds["cloud"]["scale"]), other=draw(datasets(force_comp=NCOMP.get(name, 1), min_n=6, max_n=20)))
 
 
 def check_score(case, ctx):
@@ -248,7 +252,7 @@ def check_score(case, ctx):
     exp = float(np.mean([metric("r2", odata[k], pred[k], None if ow is None else ow[k]) for k in range(len(odata))]))
     ctx.check(abs(got - exp) <= 1e-9 * max(abs(exp), 1.0), "score() = %.12g, weighted R2 of predict() = %.12g", got, exp)
     ctx.label(case["estimator"]["kind"], "weights" if ow is not None else "noweights")
-    ctx.nt(ow is not None or len(odata) == 2)
+    ctx.nt(ow is not None or len(odata) >= 2)
 
 
 # ---------------------------------------------------------------- train_test_split
